@@ -196,6 +196,7 @@ Combinations(l1, l2) ==
 \* PRIOR KNOCK-OUT STATE of the model when the analysis is called: P = set of gene ids that are already
 \* non-functional, pmode = "none" | "ko" (gene.knock_out(): their reactions are already at (0,0)) |
 \* "flag" (only gene.functional = False).  A rule is evaluated against EVERY non-functional gene.
+\* (pmode = "rewritten": no prior knock-outs; the rules were rewritten in place after an earlier deletion run)
 PriorZero(M, P, pmode) == IF pmode = "ko" THEN GeneKO(M, P) ELSE {}
 Assoc(M, K) == {r \in RIdx(M) : RuleGenes(M.rules[r]) \cap K # {}}
 \* declarative: the reactions whose rule is false once K joins the non-functional genes, plus what is
